@@ -99,7 +99,7 @@ def confirm_dropped(g: RunGroup, prop: str, want):
         if len(seen_sig) > 12:
             notes.append(case.id)
             continue
-        ok, errors = g.confirm_alone(case)
+        ok, errors, how = g.confirm_dropped(case)
         if ok:
             notes.append(case.id)
             continue
